@@ -91,7 +91,7 @@ fn run_op(op: &str, hs: &mut Hs, lent: Option<&LeanString>, out: &mut ThreadOut)
     }
     // thread 1 may read / clone through its lent handle while it is lent
     if hs.pick().is_none() {
-        if let (Some(l), true) = (lent, op == "read" || op == "clone") {
+        if let (Some(l), true) = (lent, (op == "read" || op == "clone") && gate::tid() == 1) {
             if op == "read" {
                 let b = noted_read(l);
                 if b != TEXT.as_bytes() {
@@ -175,6 +175,8 @@ fn thread_main(tid: usize, prog: Vec<String>, handles: Vec<LeanString>, lent: Op
 }
 
 pub struct RunResult {
+    pub granted: Vec<(usize, String)>,
+    pub pos: usize,
     pub followed: bool,
     pub desync: bool,
     pub label_mismatches: usize,
@@ -309,6 +311,8 @@ pub fn run_schedule(v: &Value) -> RunResult {
         }
     }
     RunResult {
+        granted: g.granted.clone(),
+        pos: g.pos,
         followed: !g.desync && g.label_mismatches == 0 && g.pos >= g.schedule.len(),
         desync: g.desync,
         label_mismatches: g.label_mismatches,
@@ -319,7 +323,63 @@ pub fn run_schedule(v: &Value) -> RunResult {
     }
 }
 
-pub fn run(out_dir: &str, sample_every: usize, max_runs: usize) -> i32 {
+impl RunResult {
+    fn to_json(&self) -> Value {
+        json!({"granted":self.granted,"pos":self.pos,"followed":self.followed,"desync":self.desync,"label_mismatches":self.label_mismatches,
+               "shim":self.shim_errors,"results":self.result_mismatches,"events":self.events,"orderings":self.orderings})
+    }
+    fn from_json(v: &Value) -> RunResult {
+        RunResult {
+            granted: serde_json::from_value(v["granted"].clone()).unwrap_or_default(),
+            pos: v["pos"].as_u64().unwrap_or(0) as usize,
+            followed: v["followed"] == true,
+            desync: v["desync"] == true,
+            label_mismatches: v["label_mismatches"].as_u64().unwrap_or(0) as usize,
+            shim_errors: serde_json::from_value(v["shim"].clone()).unwrap_or_default(),
+            result_mismatches: serde_json::from_value(v["results"].clone()).unwrap_or_default(),
+            events: v["events"].as_array().cloned().unwrap_or_default(),
+            orderings: v["orderings"].clone(),
+        }
+    }
+}
+
+/// `lsverif conc-one`: one schedule (JSON on stdin) in this process; the result as JSON on stdout.
+pub fn run_one_child() -> i32 {
+    let mut s = String::new();
+    std::io::stdin().read_line(&mut s).unwrap();
+    let v: Value = serde_json::from_str(&s).expect("schedule json");
+    let r = run_schedule(&v);
+    println!("{}", r.to_json());
+    0
+}
+
+/// Runs a schedule in a child process: an abort of the code under test is a result, not a crash of the harness.
+fn run_isolated(v: &Value) -> RunResult {
+    use std::process::{Command, Stdio};
+    let mut child = Command::new(std::env::current_exe().unwrap()).arg("conc-one").stdin(Stdio::piped()).stdout(Stdio::piped()).stderr(Stdio::null()).spawn().expect("spawn conc-one");
+    {
+        let mut tx = child.stdin.take().unwrap();
+        let _ = writeln!(tx, "{}", v);
+    }
+    let out = child.wait_with_output().unwrap();
+    let text = String::from_utf8_lossy(&out.stdout);
+    match text.lines().last().and_then(|l| serde_json::from_str::<Value>(l).ok()) {
+        Some(j) if out.status.success() => RunResult::from_json(&j),
+        _ => RunResult {
+            granted: vec![],
+            pos: 0,
+            followed: false,
+            desync: false,
+            label_mismatches: 0,
+            shim_errors: vec![format!("abort:the code under test took the process down ({})", out.status)],
+            result_mismatches: vec![],
+            events: vec![],
+            orderings: json!({}),
+        },
+    }
+}
+
+pub fn run(out_dir: &str, sample_every: usize, max_runs: usize, isolate: bool) -> i32 {
     std::fs::create_dir_all(out_dir).unwrap();
     let stdin = std::io::stdin();
     let mut tlc_tail: Vec<String> = vec![];
@@ -329,6 +389,8 @@ pub fn run(out_dir: &str, sample_every: usize, max_runs: usize) -> i32 {
     let mut samples: Vec<Value> = vec![];
     let mut ords_all = json!({});
     let mut logged = 0u64;
+    let mut cex_list: Vec<Value> = vec![];
+    let mut unfollowed: Vec<Value> = vec![];
     for line in stdin.lock().lines() {
         let Ok(line) = line else { continue };
         if !line.starts_with('"') {
@@ -350,12 +412,15 @@ pub fn run(out_dir: &str, sample_every: usize, max_runs: usize) -> i32 {
         scheds += 1;
         if kind == "cex" {
             cex += 1;
+            if cex_list.len() < 20 {
+                cex_list.push(v.clone());
+            }
         }
         if kind == "sched" && max_runs > 0 && runs as usize >= max_runs {
             continue;
         }
         runs += 1;
-        let r = run_schedule(&v);
+        let r = if isolate || kind == "cex" { run_isolated(&v) } else { run_schedule(&v) };
         if r.followed {
             followed += 1;
         }
@@ -377,7 +442,7 @@ pub fn run(out_dir: &str, sample_every: usize, max_runs: usize) -> i32 {
                 "shim":r.shim_errors,"results":r.result_mismatches,"followed":r.followed}));
         }
         // event log for the happens-before monitor: every finding, every counterexample, a sample of the rest
-        if bad || kind == "cex" || (sample_every > 0 && runs as usize % sample_every == 1) {
+        if bad || kind == "cex" || (sample_every == 1 || (sample_every > 1 && runs as usize % sample_every == 1)) {
             logged += 1;
             writeln!(ev_out, "{}", json!({"ev":"init","n":v["progs"].as_array().unwrap().len(),"kind":kind,"progs":v["progs"],"sched":v["sched"],"followed":r.followed,"bad":bad})).unwrap();
             for e in &r.events {
@@ -385,13 +450,16 @@ pub fn run(out_dir: &str, sample_every: usize, max_runs: usize) -> i32 {
             }
             writeln!(ev_out, "{}", json!({"ev":"end","shim":r.shim_errors,"results":r.result_mismatches})).unwrap();
         }
+        if !r.followed && unfollowed.len() < 6 {
+            unfollowed.push(json!({"progs":v["progs"],"own0":v["own0"],"borrowers":v["borrowers"],"sched":v["sched"],"granted":r.granted,"pos":r.pos,"desync":r.desync,"label_mismatches":r.label_mismatches}));
+        }
         if samples.len() < 4 {
             samples.push(json!({"progs":v["progs"],"sched":v["sched"],"followed":r.followed}));
         }
     }
     ev_out.flush().unwrap();
     let summary = json!({"schedules":scheds,"runs":runs,"followed":followed,"desync":desync,"cex":cex,"findings":findings,"orderings":ords_all,
-        "logged_runs":logged,"samples":samples,"tlc_tail":tlc_tail});
+        "logged_runs":logged,"samples":samples,"cex_list":cex_list,"unfollowed":unfollowed,"tlc_tail":tlc_tail});
     std::fs::write(format!("{out_dir}/conc_summary.json"), serde_json::to_string_pretty(&summary).unwrap()).unwrap();
     println!("conc: schedules={scheds} runs={runs} followed={followed} desync={desync} findings={} cex={cex}", findings.len());
     0
